@@ -701,6 +701,143 @@ def rule_designators(chk, prog, tier):
     r.exhaustive = True
 
 
+# ------------------------------------------------------------------ C01.j value flow of the non-binary expression arms
+
+def rule_exprflow(chk, prog, tier):
+    r = chk.rule('C01.j', 'increment/decrement, assignment, comma, cast, unary minus, indirection and address-of are lowered with the data flow C prescribes: operands evaluated (once, in order), the right instruction on the right values, the stored value written back, and the value of the expression is the one 6.5.2.4/6.5.3.1/6.5.16/6.5.17 name',
+                 floor=60, oracle='C11 6.5.2.4p2, 6.5.3.1p2, 6.5.3.2, 6.5.3.3p3, 6.5.4, 6.5.16p3, 6.5.17p2')
+    fe = prog.require_func('funcexpr', 'qbe.c')
+    names = instnames(prog)
+    def mk_runner(build):
+        def runner(it):
+            w = World(prog, it=it, target='x86_64-sysv')
+            u = universe(w)
+            u['pint'] = w.mkptr(w.t('int')); u['pS12'] = w.mkptr(w.mkstruct(size=12, align=4)); u['pchar'] = w.mkptr(w.t('char'))
+            def leaf(label, ty):
+                x = w.mkexpr('EXPRIDENT', u[ty]); x.obj.ilabel = label; return x
+            def funcexpr(i2, a, e):
+                lbl = getattr(a[1].obj, 'ilabel', None)
+                if lbl is not None:
+                    i2.event('eval', lbl); return val('v:' + lbl)
+                return i2.call(fe, a)
+            def funclval(i2, a, e):
+                lbl = getattr(a[1].obj, 'ilabel', '?')
+                i2.event('lval', lbl)
+                return StructVal({('addr',): val('a:' + lbl), ('bits', 'before'): 0, ('bits', 'after'): 0})
+            def funcload(i2, a, e):
+                rv = val('ld%d' % len(i2.events)); i2.event('load', name_of_type(u, a[1]), a[2].f[('addr',)], rv); return rv
+            def funcstore(i2, a, e):
+                i2.event('store', name_of_type(u, a[1]), a[3].f[('addr',)], a[4]); return a[4]
+            def convert(i2, a, e):
+                rv = val('cv%d' % len(i2.events)); i2.event('convert', name_of_type(u, a[1]), name_of_type(u, a[2]), a[3], rv); return rv
+            M = backend_models(prog)
+            it.models.update(M)
+            it.models.update({'funcexpr': funcexpr, 'funclval': funclval, 'funcload': funcload, 'funcstore': funcstore, 'convert': convert, 'calcvla': lambda i2, a, e: None})
+            ex = build(w, u, leaf)
+            res = it.call(fe, [Ptr(Obj('func', 'heap'), ()), ex])
+            return res, list(it.events)
+        return runner
+    def name_of_type(u, t):
+        for n, p in u.items():
+            if isinstance(t, Ptr) and p.obj is t.obj: return n
+        return '?'
+    def lab(v):
+        return v.obj.label[4:] if isinstance(v, Ptr) and v.obj.label.startswith('val:') else repr(v)
+    cases = []
+    # ---- ++ / --
+    for ty in ('char', 'short', 'int', 'uint', 'long', 'ulong', 'float', 'double', 'pint', 'pS12', 'pchar'):
+        for op in ('TINC', 'TDEC'):
+            for post in (0, 1):
+                def build(w, u, leaf, ty=ty, op=op, post=post):
+                    return w.mkexpr('EXPRINCDEC', u[ty], leaf('x', ty), op=ev(prog, op), u__incdec__post=post)
+                def judge(res, evs, ty=ty, op=op, post=post):
+                    T = oracle_types(1)
+                    cls = 'l' if ty.startswith('p') else ('s' if ty == 'float' else 'd' if ty == 'double' else ('l' if T[ty][0] == 8 else 'w'))
+                    step = {'pint': 4, 'pS12': 12, 'pchar': 1}.get(ty, 1)
+                    lv = [e_ for e_ in evs if e_[0] == 'lval']; ld = [e_ for e_ in evs if e_[0] == 'load']; ins = [e_ for e_ in evs if e_[0] == 'inst']; st_ = [e_ for e_ in evs if e_[0] == 'store']
+                    if not (len(lv) == 1 and len(ld) == 1 and len(ins) == 1 and len(st_) == 1): return 'expected one lvalue, one load, one add/sub, one store; got %s' % [e_[:3] for e_ in evs]
+                    wantop = ('IADD' if op == 'TINC' else 'ISUB')
+                    i0 = ins[0]
+                    amt = i0[4]
+                    okamt = (amt == ('const', step)) if ty not in ('float', 'double') else (isinstance(amt, tuple) and amt[0] == 'fconst' and amt[2] == 1)
+                    if i0[1] != wantop or i0[2] != cls or i0[3] != ld[0][3] or not okamt: return 'expected %s.%s(loaded value, %s); got %s %s (%s, %s)' % (wantop, cls, step, i0[1], i0[2], lab(i0[3]), i0[4])
+                    if st_[0][1] != ty or st_[0][2] != ld[0][2] or st_[0][3] != i0[5]: return 'the new value must be stored back to the operand (type %s); stored %s into %s as %s' % (ty, lab(st_[0][3]), lab(st_[0][2]), st_[0][1])
+                    want = ld[0][3] if post else i0[5]
+                    if res != want: return 'the value of the expression must be the %s value; got %s' % ('old' if post else 'new', lab(res))
+                    return None
+                cases.append(('incdec:%s%s,%s' % ('post' if post else 'pre', '++' if op == 'TINC' else '--', ty), build, judge))
+    # ---- assignment
+    for ty in ('char', 'int', 'long', 'double', 'pint'):
+        def build(w, u, leaf, ty=ty):
+            return w.mkexpr('EXPRASSIGN', u[ty], None, u__assign__l=leaf('x', ty), u__assign__r=leaf('y', ty))
+        def judge(res, evs, ty=ty):
+            seq = [e_[0] for e_ in evs]
+            st_ = [e_ for e_ in evs if e_[0] == 'store']
+            if [e_ for e_ in evs if e_[0] == 'eval'] != [('eval', 'y')] or len(st_) != 1: return 'the right operand is evaluated once and stored once; events %s' % [e_[:2] for e_ in evs]
+            if lab(st_[0][3]) != 'v:y' or lab(st_[0][2]) != 'a:x' or st_[0][1] != ty: return 'stored %s into %s as %s' % (lab(st_[0][3]), lab(st_[0][2]), st_[0][1])
+            if res != st_[0][3]: return 'the value of an assignment is the stored value; got %s' % lab(res)
+            return None
+        cases.append(('assign:%s' % ty, build, judge))
+    # ---- comma
+    for n in (2, 3, 4):
+        def build(w, u, leaf, n=n):
+            els = [leaf('e%d' % k, 'int') for k in range(n)]
+            for a, b in zip(els, els[1:]): a.obj.f[('next',)] = b
+            return w.mkexpr('EXPRCOMMA', u['int'], els[0])
+        def judge(res, evs, n=n):
+            got = [e_[1] for e_ in evs if e_[0] == 'eval']
+            if got != ['e%d' % k for k in range(n)]: return 'operands must be evaluated left to right, each once; evaluated %s' % got
+            if lab(res) != 'v:e%d' % (n - 1): return 'the value is the last operand; got %s' % lab(res)
+            return None
+        cases.append(('comma:%d' % n, build, judge))
+    # ---- cast
+    for dst, src in (('int', 'char'), ('double', 'int'), ('char', 'long'), ('pint', 'long'), ('float', 'double'), ('uint', 'float')):
+        for toeval in (0, 1):
+            def build(w, u, leaf, dst=dst, src=src, toeval=toeval):
+                x = w.mkexpr('EXPRCAST', u[dst], leaf('x', src))
+                if toeval: x.obj.f[('toeval',)] = leaf('t', 'int')
+                return x
+            def judge(res, evs, dst=dst, src=src, toeval=toeval):
+                ev_ = [e_[1] for e_ in evs if e_[0] == 'eval']
+                cv = [e_ for e_ in evs if e_[0] == 'convert']
+                if ev_ != (['t'] if toeval else []) + ['x']: return 'evaluation order: %s' % ev_
+                if len(cv) != 1 or cv[0][1] != dst or cv[0][2] != src or lab(cv[0][3]) != 'v:x' or res != cv[0][4]: return 'expected convert(%s <- %s) of the operand; got %s' % (dst, src, [(c_[1], c_[2], lab(c_[3])) for c_ in cv])
+                return None
+            cases.append(('cast:%s<-%s%s' % (dst, src, ',toeval' if toeval else ''), build, judge))
+    # ---- unary
+    for ty in ('int', 'long', 'float', 'double'):
+        def build(w, u, leaf, ty=ty):
+            return w.mkexpr('EXPRUNARY', u[ty], leaf('x', ty), op=ev(prog, 'TSUB'))
+        def judge(res, evs, ty=ty):
+            cls = {'int': 'w', 'long': 'l', 'float': 's', 'double': 'd'}[ty]
+            ins = [e_ for e_ in evs if e_[0] == 'inst']
+            if len(ins) != 1 or ins[0][1] != 'INEG' or ins[0][2] != cls or lab(ins[0][3]) != 'v:x' or res != ins[0][5]: return 'expected neg.%s of the operand; got %s' % (cls, [(i_[1], i_[2], lab(i_[3])) for i_ in ins])
+            return None
+        cases.append(('neg:%s' % ty, build, judge))
+    for ty in ('int', 'char', 'double', 'pint'):
+        def build(w, u, leaf, ty=ty):
+            return w.mkexpr('EXPRUNARY', u[ty], leaf('p', 'pint'), op=ev(prog, 'TMUL'))
+        def judge(res, evs, ty=ty):
+            ld = [e_ for e_ in evs if e_[0] == 'load']
+            if len(ld) != 1 or ld[0][1] != ty or lab(ld[0][2]) != 'v:p' or res != ld[0][3]: return 'expected one load of type %s through the pointer value; got %s' % (ty, [(l_[1], lab(l_[2])) for l_ in ld])
+            return None
+        cases.append(('deref:%s' % ty, build, judge))
+    def build(w, u, leaf):
+        return w.mkexpr('EXPRUNARY', u['pint'], leaf('x', 'int'), op=ev(prog, 'TBAND'))
+    def judge(res, evs):
+        if [e_[0] for e_ in evs] != ['lval'] or lab(res) != 'a:x': return 'address-of yields the operand\'s address without loading it; events %s, value %s' % ([e_[0] for e_ in evs], lab(res))
+        return None
+    cases.append(('addrof', build, judge))
+    for key, build, judge in cases:
+        runs = explore(prog, mk_runner(build), {}, max_runs=4, on_unsupported='keep')
+        if len(runs) != 1 or runs[0].outcome != 'return':
+            raise AnalysisBroken('funcexpr %s: %s %s' % (key, runs[0].outcome if runs else '?', runs[0].detail if runs else ''))
+        res, evs = runs[0].value
+        bad = judge(res, evs)
+        r.instance(bad is None, 'exprflow:' + key, 'qbe.c:%s' % fe.get('line'), bad or '')
+    r.exhaustive = False
+
+
 def run(chk, tier):
     prog = facts.programs()['cproc-qbe']
     chk.guard('C01.a', lambda: rule_binop(chk, prog, tier))
@@ -712,5 +849,6 @@ def run(chk, tier):
     chk.guard('C01.g', lambda: rule_bits(chk, prog, tier))
     chk.guard('C01.h', lambda: rule_ldouble(chk, prog, tier))
     chk.guard('C01.i', lambda: rule_designators(chk, prog, tier))
+    chk.guard('C01.j', lambda: rule_exprflow(chk, prog, tier))
     from props import c01f
     chk.guard('C01.f', lambda: c01f.rule_statements(chk, prog, tier))
